@@ -495,10 +495,11 @@ def handle (op : String) (args res : List String) : Option Verdict :=
   | "nn_load" => some (handleLoad args res)
   | "nn_bin" => some (handleBin res)
   | "nn_init" => some (handleInit args res)
-  | "nn_bulk" | "nn_geo" | "nn_loadraw" | "nn_loaddag" | "nn_loadtrunc" => some (.skip "brute-force / robustness oracle in the harness")
+  | "nn_bulk" | "nn_geo" | "nn_loadraw" | "nn_loaddag" | "nn_loadtrunc" | "nn_stats" => some (.skip "brute-force / robustness oracle in the harness")
   | _ =>
     if op.startsWith "ixm_" then handleIxm op args res
     else if op.startsWith "ixs_" then handleIxs op args res
+    else if op.startsWith "tl_" then some (.skip "command-line front end: compared character for character with the library by the harness")
     else if op.startsWith "ix_" then some (.skip "Intersect: oracles in the harness (no model of the tiling search)")
     else handleProj op args res
 
